@@ -2017,7 +2017,14 @@ class FileBuilder:
                 logger.info(
                     'Moved cache file {:s} to a temporary directory'.format(
                         cache_filename))
-            self._new_cache.write(cache_filename)
+            try:
+                self._new_cache.write(cache_filename)
+            except Exception:
+                # Don't leave a partially written cache file behind. (We moved
+                # the old cache file, if any, to a temporary directory, and
+                # rolling back restores it.)
+                FileBuilder._try_to_remove_file(cache_filename)
+                raise
             logger.info('Wrote cache file {:s}'.format(cache_filename))
         except Exception:
             self._is_finished_build = True
